@@ -60,6 +60,9 @@ func vExternalProducts(from, to int) {
 		rQ.MulCoeffsBarrett(m.Value, g.Value, want)
 		out := rlwe.NewCiphertext(params, 1, cs.levelQ)
 		out.IsNTT = true
+		for j := range out.Value { // the receiver held other data before
+			vFillAtoms(rQ, out.Value[j], "junk"+string(rune('0'+j)), vUniform)
+		}
 		c.Eval.ExternalProduct(ct, gsw, out)
 		got := rlwe.NewPlaintext(params, cs.levelQ)
 		c.Dec.Decrypt(out, got)
@@ -167,6 +170,12 @@ func VerifH_C20_RGSWAlgebra() {
 		rQ.IMForm(xm.Q, xq)
 		rQ.MulCoeffsBarrett(g1.Value, xq, gs)
 		check(prod, gs, tag+"-RGSW-times-X^a-minus-one-encrypts-the-product")
+		// accumulating form on a non-zero receiver: gsw2 + gsw1·(X^a - 1)
+		acc := vCopyRGSW(params, cs, gsw2)
+		MulByXPowAlphaMinusOneThenAddLazy(gsw1, xm, ringQP, acc)
+		Reduce(acc, ringQP, acc)
+		rQ.Add(gs, g2.Value, gs)
+		check(acc, gs, tag+"-RGSW-plus-RGSW-times-X^a-minus-one-encrypts-the-sum")
 	}
 	vCover("C20-algebra-reached")
 }
